@@ -32,11 +32,6 @@ def category(fn, what, args):
     """Signatures of the deviations recorded in known_findings.jsonl."""
     if what == 'raise:DispatcherError/BroadcastError':
         return 'mismatched-array-shapes-raise-BroadcastError'
-    if fn in ('VLOOKUP', 'HLOOKUP') and what == 'error-lost' and \
-            any(d in ('rerr', 'literr') for d in args[2:]) and \
-            not any(d in ERR_DESC for d in args[:1]) and \
-            not any(d in ('na', 'div0') for d in args[2:]):
-        return 'lookup-index-or-mode-given-as-an-array'
     return None
 
 
